@@ -806,7 +806,8 @@ func main() {
 		replayLine(o, r.Fork(), l)
 	}
 
-	doShutdownStress(o, 150+f.N/5)
+	doShutdownStress(o, 6000+12*f.N, 8)
+	doShutdownStress(o, 1000+2*f.N, 32)
 
 	nextID := 0
 	retries := 10 + f.N/150 // every retry waits for the batch's backoff (100 ms and growing)
